@@ -133,6 +133,8 @@ def rule_constant_block(ctx, rep):
     for nm, blocks, want in (("one intcblock in the entry block", [["intcblock 5 6", "int 1"], ["int 2"]], [5, 6]),
                              ("intcblock outside the entry block", [["int 1"], ["intcblock 5 6"]], []),
                              ("two intcblocks", [["intcblock 5 6", "intcblock 7"], ["int 2"]], []),
+                             ("one intcblock in the entry block and another one later", [["intcblock 5 6", "int 1"], ["intcblock 7 8"]], []),
+                             ("two intcblocks outside the entry block", [["int 1"], ["intcblock 5 6"], ["intcblock 7"]], []),
                              ("no intcblock", [["int 1"], ["int 2"]], [])):
         t = mk_teal(None)
         bbs, allins = [], []
